@@ -85,8 +85,8 @@ fn deep_rows(start: &str) -> Vec<&'static str> {
     match start {
         "empty" => vec!["r0", "far", "r1", "r7"],
         "sparse1023" => vec!["last+1", "far", "hole", "first", "last"],
-        "dense1024@0" => vec!["last+1", "far", "last", "first", "inside"],
-        "dense2048@10" => vec!["below-1", "far", "last+1", "first", "below-0"],
+        "dense1024@0" => vec!["last+1", "far", "last+200", "last", "first", "inside"],
+        "dense2048@10" => vec!["below-1", "far", "last+200", "last+1", "first", "below-0"],
         "breakeven" => vec!["last+1", "far", "first", "below", "hole"],
         "demoted2047" => vec!["far", "last+1", "first", "far2", "below"],
         "string+bool" => vec!["last+1-a", "far", "last+1-b", "below-a", "absent-b"],
@@ -443,7 +443,7 @@ fn starts() -> Vec<Start> {
                 put(cs, b, r, 1, PropertyValue::String(format!("v{r}")));
             }
         },
-        vec![("first", 0), ("inside", 512), ("last", 1023), ("last+1", 1024), ("last+2", 1025), ("near-far", 3000), ("far", far)],
+        vec![("first", 0), ("inside", 512), ("last", 1023), ("last+1", 1024), ("last+2", 1025), ("last+200", 1223), ("near-far", 3000), ("far", far)],
     ));
     // 3. dense 2048 rows at base 10 (writes below the base -> rebase)
     v.push(build(
@@ -454,7 +454,7 @@ fn starts() -> Vec<Start> {
                 put(cs, b, r, 0, PropertyValue::Integer(-(r as i64)));
             }
         },
-        vec![("below-0", 0), ("below-1", 9), ("first", 10), ("inside", 1000), ("last", 2057), ("last+1", 2058), ("far", far)],
+        vec![("below-0", 0), ("below-1", 9), ("first", 10), ("inside", 1000), ("last", 2057), ("last+1", 2058), ("last+200", 2257), ("far", far)],
     ));
     // 4. dense with holes exactly at the fill-factor break-even of i64 (span 2048):
     //    856 entries -> a write at last+1 still extends, after one removal it must refuse and demote.
